@@ -29,7 +29,7 @@ type zooCase struct {
 	D       int  `json:"d"`
 	Inverse bool `json:"inverse,omitempty"`
 	// sticky: continuation operation indexes
-	Cont []int `json:"cont,omitempty"`
+	Cont []int  `json:"cont,omitempty"`
 	Desc string `json:"desc,omitempty"` // informational
 }
 
@@ -863,6 +863,7 @@ func c10Run(ctx *core.Ctx) {
 func init() {
 	core.Register(&core.Check{
 		ID:    "C10",
+		Setup: func() { c10Variants(); erroredFrames(c10Variants()[0]) },
 		Level: "model_checking",
 		Rule: "zoo suites, each the full product of its argument menus on 5 frame variants (base, empty, sorted+sliced, selected, aggregated): " +
 			"Filter{6 columns x 28 comparators (all names, unknown, int, nil, functions of every signature) x 22 argument values x Inverse} in 11 clause wrappers (alone, negated, and after sub-clauses that already decide the result) plus And chains with counting predicates and a second invalid sub-clause; " +
